@@ -4,24 +4,27 @@
 
    FULL on the model (all strings / all values):
      c07_decimal_spec, c07_decimal_digit_table_irrelevant, c07_decimal_constructor,
-     c07_decimal_cmp, c07_offset_exact, c07_duration_since_exact, c07_to_date_exact,
-     c07_to_time_exact, c07_to_date_plus_to_time, c07_duration_to_exact, c07_rel_exact,
-     c07_eq_by_value, c07_days_from_civil_correct.
+     c07_decimal_cmp, c07_duration_spec, c07_offset_exact, c07_duration_since_exact,
+     c07_to_date_exact, c07_to_time_exact, c07_to_date_plus_to_time, c07_duration_to_exact,
+     c07_rel_exact, c07_eq_by_value, c07_days_from_civil_correct, c07_days_from_civil_monotone,
+     c07_days_from_civil_injective, c07_in_range, c07_loopback, c07_multicast.
    PARTIAL (named _partial):
-     c07_in_range_partial      — only a.isInRange(a) and "v4 and v6 are never in range of each
-                                 other"; the full  isInRange <-> range inclusion  (bit-mask
-                                 arithmetic) is NOT proved, nor loopback/multicast = inclusion in
-                                 127.0.0.0/8, ::1/128, 224.0.0.0/4, ff00::/8.
-     c07_duration_range_partial — each accumulation step of parse_duration yields an i64; the
-                                 full characterisation of accepted duration strings (ordered
-                                 optional d h m s ms groups, value = exact sum) is NOT proved.
-   NOT proved at all (compared with the implementation by correspondence only): the
-   characterisations of the datetime and ip string parsers (c07_datetime_spec, c07_ip_spec of
-   DESIGN.md) and monotonicity of days_from_civil (the successor theorem below pins the function
-   uniquely on valid dates, monotonicity is a corollary that is not stated). *)
+     c07_datetime_spec_partial — soundness direction only: an accepted string has one of the five
+                                 documented shapes with a valid civil date, time and offset and
+                                 the value is the exact millisecond count; the converse (every
+                                 such string is accepted) is NOT proved.
+     c07_ip_spec_partial       — soundness for IPv4 results only (dotted quad without leading
+                                 zeros, optional /0../32 without leading zeros, value exact and
+                                 well formed); completeness and the IPv6 text forms are NOT proved
+                                 (IPv6 values are therefore only ASSUMED well formed, `ip_wf`, in
+                                 c07_in_range / c07_loopback / c07_multicast).
+     c07_in_range_partial, c07_duration_range_partial — earlier partial statements, kept (both are
+                                 now subsumed by c07_in_range and c07_duration_spec).
+   No explicit civil_from_days function is defined; c07_days_from_civil_injective states that the
+   day number determines the valid date (existence and uniqueness of the inverse). *)
 From Coq Require Import ZArith NArith List Bool.
 From Coq Require QArith.
-From Cedar Require Import ExtParse ExtParseProofs.
+From Cedar Require Import ExtParse ExtParseProofs ExtIpProofs ExtDurationProofs ExtDatetimeProofs ExtIpParseProofs ExtCivilProofs.
 Import ListNotations.
 Open Scope Z_scope.
 
@@ -132,6 +135,61 @@ Theorem c07_duration_range_partial : forall neg x y mul r,
 Proof. exact dur_checked_op_in_range. Qed.
 Print Assumptions c07_duration_range_partial.
 
+(* duration(s) is accepted iff s = ['-'] followed by the ordered optional groups
+   digits"d" digits"h" digits"m" digits"s" digits"ms" (at least one), and the exact value
+   +-(d*86400000 + h*3600000 + m*60000 + s*1000 + ms) is an i64; then that is the value;
+   everything else (shape or overflow) is the extension error *)
+Theorem c07_duration_spec : forall s v, duration_parse s = Some v <-> dur_spec s v.
+Proof. exact duration_parse_spec. Qed.
+Print Assumptions c07_duration_spec.
+
+(* isInRange <-> same family and every address sharing a's first prefix bits also shares b's
+   (includes /0, /32, /128, where the code relies on checked_shl/shr returning None) *)
+Theorem c07_in_range : forall a b, ip_wf a -> ip_wf b ->
+  (ip_is_in_range a b = true <->
+   ip_v6 a = ip_v6 b /\ forall x, in_ip_range a x -> in_ip_range b x).
+Proof. exact ip_in_range_iff. Qed.
+Print Assumptions c07_in_range.
+
+(* isLoopback = inclusion in 127.0.0.0/8 resp. ::1/128; isMulticast = inclusion in 224.0.0.0/4 resp. ff00::/8 *)
+Theorem c07_loopback : forall a, ip_wf a ->
+  ip_is_loopback a = ip_is_in_range a (loopback_block (ip_v6 a)).
+Proof. exact ip_loopback_is_range. Qed.
+Print Assumptions c07_loopback.
+
+Theorem c07_multicast : forall a, ip_wf a ->
+  ip_is_multicast a = ip_is_in_range a (multicast_block (ip_v6 a)).
+Proof. exact ip_multicast_is_range. Qed.
+Print Assumptions c07_multicast.
+
+Theorem c07_days_from_civil_monotone : forall y m d y' m' d',
+  0 <= y -> valid_ymd y m d = true -> valid_ymd y' m' d' = true ->
+  (y < y' \/ (y = y' /\ (m < m' \/ (m = m' /\ d < d')))) ->
+  days_from_civil y m d < days_from_civil y' m' d'.
+Proof. exact days_from_civil_monotone. Qed.
+Print Assumptions c07_days_from_civil_monotone.
+
+Theorem c07_days_from_civil_injective : forall y m d y' m' d',
+  0 <= y -> 0 <= y' -> valid_ymd y m d = true -> valid_ymd y' m' d' = true ->
+  days_from_civil y m d = days_from_civil y' m' d' -> y = y' /\ m = m' /\ d = d'.
+Proof. exact days_from_civil_injective. Qed.
+Print Assumptions c07_days_from_civil_injective.
+
+Theorem c07_datetime_spec_partial : forall s ms, datetime_parse s = Some ms -> dt_spec s ms.
+Proof. exact datetime_parse_sound. Qed.
+Print Assumptions c07_datetime_spec_partial.
+
+Theorem c07_ip_spec_partial : forall s a, ip_parse s = Some a -> ip_v6 a = false ->
+  exists O1 O2 O3 O4 o1 o2 o3 o4,
+    dec_field 3 255 O1 o1 /\ dec_field 3 255 O2 o2 /\ dec_field 3 255 O3 o3 /\ dec_field 3 255 O4 o4 /\
+    ip_addr a = (((o1 * 256 + o2) * 256 + o3) * 256 + o4)%N /\
+    ((s = O1 ++ 46%N :: O2 ++ 46%N :: O3 ++ 46%N :: O4 /\ ip_prefix a = 32%N) \/
+     exists P, s = (O1 ++ 46%N :: O2 ++ 46%N :: O3 ++ 46%N :: O4) ++ 47%N :: P /\
+               dec_field 2 32 P (ip_prefix a)) /\
+    ip_wf a.
+Proof. exact ip_parse_v4_sound. Qed.
+Print Assumptions c07_ip_spec_partial.
+
 (* ---- non-vacuity / sanity: concrete instances *)
 Example ex_decimal : decimal_parse (s2str "-1.50") = Some (-15000). Proof. vm_compute. reflexivity. Qed.
 Example ex_decimal_max : decimal_parse (s2str "922337203685477.5807") = Some 9223372036854775807. Proof. vm_compute. reflexivity. Qed.
@@ -148,3 +206,11 @@ Example ex_ip : ip_parse (s2str "::1/64") = Some (mkIp true 1 64) /\ ip_parse (s
 Proof. vm_compute. auto. Qed.
 Example ex_to_date_neg : dt_to_date (-1) = Some (-86400000) /\ dt_to_time (-1) = 86399999 /\ dt_to_date (-9223372036854775808) = None.
 Proof. vm_compute. auto. Qed.
+Example ex_dur_spec : dur_spec (s2str "-1d2h") (-93600000).
+Proof. apply c07_duration_spec. vm_compute. reflexivity. Qed.
+Example ex_in_range : ip_wf (mkIp false 167772165 8) /\ ip_is_in_range (mkIp false 167772165 8) (mkIp false 167772160 8) = true
+  /\ ip_is_in_range (mkIp true 0 0) (mkIp true 0 127) = false /\ ip_is_loopback (mkIp false 2130706433 32) = true.
+Proof. vm_compute. repeat split; auto; discriminate. Qed.
+Example ex_dt_spec : exists ms, datetime_parse (s2str "2024-02-29T23:59:59.999-2359") = Some ms /\ dt_spec (s2str "2024-02-29T23:59:59.999-2359") ms.
+Proof. eexists. split; [vm_compute; reflexivity|]. apply c07_datetime_spec_partial. vm_compute. reflexivity. Qed.
+Example ex_ip_v4 : ip_parse (s2str "10.0.0.5/8") = Some (mkIp false 167772165 8). Proof. vm_compute. reflexivity. Qed.
